@@ -60,7 +60,7 @@ def write_mc(wd, mod, progs, names, dev, invariants, properties, base="ZPT", emi
 
 def _shard(job):
     (wd, sid, progs, names, dev, invariants, properties, perms, options, timeout, max_report,
-     replay, base, extra_env, simulate) = job
+     replay, base, extra_env, simulate, collect) = job
     from .replay import Replayer
     out = dict(sid=sid, states=0, distinct=0, behaviours=0, replays=0, programs=len(progs), mismatches=[],
                tlc_violation=None, tlc_error=None, samples=[], compiled=0, wall_tlc=0.0, wall_replay=0.0,
@@ -97,6 +97,8 @@ def _shard(job):
             by.setdefault(rec["pid"], []).append(rec)
         out["behaviours"] = len(r.records)
         out["nontrivial"] = sum(1 for rec in r.records if len(rec["log"]) > 0)
+        if collect:
+            out["records"] = by
         if not replay:
             out["samples"] = r.records[:1]
             return out
@@ -109,7 +111,10 @@ def _shard(job):
                 for rec in recs:
                     ok, why = rp.run(rec)
                     out["replays"] += 1
-                    if not ok and len(out["mismatches"]) < max_report:
+                    if not ok and why.startswith("KNOWN["):
+                        tag = why[6:why.index("]")]
+                        out.setdefault("known", {}).setdefault(tag, dict(n=0, source=rp.c.source, why=why))["n"] += 1
+                    elif not ok and len(out["mismatches"]) < max_report:
                         out["mismatches"].append(dict(fam=p.get("fam"), source=rp.c.source, perm=perm, why=why,
                                                       log=rec["log"], res=rec["res"], exc=rec.get("exc"),
                                                       prog=p))
@@ -125,7 +130,7 @@ def _shard(job):
 
 
 def run_family(tag, progs, names, dev=(), invariants=(), properties=(), perms=(0,), options=None,
-               nshards=16, timeout=900, max_report=3, replay=True, base="ZPT", extra_env=None, simulate=None):
+               nshards=16, timeout=900, max_report=3, replay=True, base="ZPT", extra_env=None, simulate=None, collect=False):
     """returns aggregated dict; never raises for a property violation"""
     wd = workdir(tag)
     try:
@@ -134,7 +139,7 @@ def run_family(tag, progs, names, dev=(), invariants=(), properties=(), perms=(0
         for n, p in enumerate(progs):
             shards[n % nshards].append(p)
         jobs = [(wd, sid, sh, names, dev, invariants, properties, perms, options, timeout, max_report,
-                 replay, base, extra_env, simulate)
+                 replay, base, extra_env, simulate, collect)
                 for sid, sh in enumerate(shards)]
         ctx = multiprocessing.get_context("fork")
         with ctx.Pool(min(16, nshards)) as pool:
@@ -158,4 +163,14 @@ def run_family(tag, progs, names, dev=(), invariants=(), properties=(), perms=(0
             agg["tlc_error"] = r["tlc_error"]
         if r["samples"] and len(agg["samples"]) < 3:
             agg["samples"] += r["samples"][:1]
+        for tag, info in r.get("known", {}).items():
+            k = agg.setdefault("known", {}).setdefault(tag, dict(n=0, source=info["source"], why=info["why"]))
+            k["n"] += info["n"]
+    if collect:
+        # records keyed by the index of the program in `progs`
+        recs = {}
+        for r in res:
+            for pid, lst in r.get("records", {}).items():
+                recs[r["sid"] + (pid - 1) * nshards] = lst
+        agg["records"] = recs
     return agg
